@@ -113,12 +113,21 @@ static int classify(const SessionSpec &ss, const std::vector<ParamSpec> &params)
 	}
 	return n;
     };
-    if (ue) {
+    bool any_unknown = false;
+    for (const StdSpec &st : ss.stds) for (int pi : st.params) if (!params[(size_t)pi].known()) any_unknown = true;
+    if (ue && !any_unknown) {
+	// one independent linear system per driven column
 	for (int col = 0; col < P; ++col) {
 	    long eq = 0;
 	    for (const StdSpec &st : ss.stds) eq += equations(st, col);
 	    if (eq < cal_unknowns(ss.type, P, true)) return 2;
 	}
+    } else if (ue) {
+	// with unknown standard parameters the columns are coupled through them: total count only
+	long eq = 0, up = 0;
+	std::set<int> seen;
+	for (const StdSpec &st : ss.stds) { eq += equations(st, -1); for (int pi : st.params) if (!params[(size_t)pi].known() && seen.insert(pi).second) ++up; }
+	if (eq < (long)cal_unknowns(ss.type, P, true) * P + up) return 2;
     } else {
 	long eq = 0;
 	for (const StdSpec &st : ss.stds) eq += equations(st, -1);
@@ -317,13 +326,14 @@ static void run_op(CalWorld &w, const Op &op, const Plan &plan)
     Ctx &c = w.c;
     const std::string &k = op.k;
     c.log("op %s i=[%ld,%ld,%ld,%ld,%ld]", k.c_str(), op.I(0), op.I(1), op.I(2), op.I(3), op.I(4));
-    auto usage_failure = [&](LibCall &lc, bool failed, const char *fn, bool must_report) -> bool {
+    size_t u_ncb = 0; int u_cat = -1, u_err = 0;
+#define CAPTURE_CB u_ncb = g_sim.callbacks.size(); u_cat = u_ncb ? g_sim.callbacks.back().category : -1
+    auto usage_failure = [&](bool failed, const char *fn, bool must_report) -> bool {
 	// a refused call: failure value, EINVAL, (C11) one USAGE callback when installed
-	size_t ncb = g_sim.callbacks.size();
-	int cat = ncb ? g_sim.callbacks.back().category : -1;
-	lc.done();
+	size_t ncb = u_ncb;
+	int cat = u_cat;
 	if (!failed) return false;
-	if (lc.saved_errno != EINVAL) { c.violate("model", k + ":errno", strf("%s refused with errno %s, expected EINVAL", fn, errno_name(lc.saved_errno))); return true; }
+	if (u_err != EINVAL) { c.violate("model", k + ":errno", strf("%s refused with errno %s, expected EINVAL", fn, errno_name(u_err))); return true; }
 	if (must_report && w.cb && (ncb == 0 || cat != VNAERR_USAGE)) { c.violate("model", k + ":callback", strf("%s refused without a USAGE report through the error callback", fn)); return true; }
 	c.count("probe.refused");
 	return true;
@@ -332,7 +342,7 @@ static void run_op(CalWorld &w, const Op &op, const Plan &plan)
     if (k == "mkscalar") {
 	LiveParam lp;
 	lp.spec.kind = 1; lp.spec.value = zc(op.D(0), op.D(1));
-	{ LibCall lc(c, &op); lp.handle = vnacal_make_scalar_parameter(w.vcp, toc(lp.spec.value)); lc.done(); }
+	LIB_RETRY(c, &op, "vnacal_make_scalar_parameter", u_err, lp.handle < 0, lp.handle = vnacal_make_scalar_parameter(w.vcp, toc(lp.spec.value)));
 	if (lp.handle < 0) { c.violate("model", "mkscalar:rc", "vnacal_make_scalar_parameter failed"); return; }
 	lp.live = true;
 	note_new_handle(w, lp.handle);
@@ -353,7 +363,7 @@ static void run_op(CalWorld &w, const Op &op, const Plan &plan)
 	}
 	std::vector<cplx> gv;
 	for (zc z : lp.spec.kv) gv.push_back(toc(z));
-	{ LibCall lc(c, &op); lp.handle = vnacal_make_vector_parameter(w.vcp, lp.spec.kf.data(), n, gv.data()); lc.done(); }
+	LIB_RETRY(c, &op, "vnacal_make_vector_parameter", u_err, lp.handle < 0, lp.handle = vnacal_make_vector_parameter(w.vcp, lp.spec.kf.data(), n, gv.data()));
 	if (lp.handle < 0) { c.violate("model", "mkvector:rc", "vnacal_make_vector_parameter failed for ascending positive frequencies"); return; }
 	lp.live = true;
 	note_new_handle(w, lp.handle);
@@ -370,9 +380,8 @@ static void run_op(CalWorld &w, const Op &op, const Plan &plan)
 	lp.spec.kind = 3; lp.spec.value = zc(op.D(0), op.D(1)); lp.spec.guess = param_truth(g, 1e9);
 	int h;
 	{
-	    LibCall lc(c, &op);
-	    h = vnacal_make_unknown_parameter(w.vcp, gh);
-	    if (usage_failure(lc, h < 0, "vnacal_make_unknown_parameter", true)) {
+	    LIB_RETRY(c, &op, "vnacal_make_unknown_parameter", u_err, h < 0, h = vnacal_make_unknown_parameter(w.vcp, gh); CAPTURE_CB);
+	    if (usage_failure(h < 0, "vnacal_make_unknown_parameter", true)) {
 		if (!c.violated && guess_live && g.kind != 3) c.violate("model", "mkunknown:rc", "vnacal_make_unknown_parameter refused a live scalar/vector guess");
 		return;
 	    }
@@ -391,9 +400,8 @@ static void run_op(CalWorld &w, const Op &op, const Plan &plan)
 	bool live = pi < 0 || w.params[(size_t)pi].live;
 	int rc;
 	{
-	    LibCall lc(c, &op);
-	    rc = vnacal_delete_parameter(w.vcp, h);
-	    if (usage_failure(lc, rc != 0, "vnacal_delete_parameter", true)) {
+	    LIB_RETRY(c, &op, "vnacal_delete_parameter", u_err, rc != 0, rc = vnacal_delete_parameter(w.vcp, h); CAPTURE_CB);
+	    if (usage_failure(rc != 0, "vnacal_delete_parameter", true)) {
 		if (!c.violated && live) c.violate("model", "delparam:rc", strf("vnacal_delete_parameter(%d) refused a live handle", h));
 		return;
 	    }
@@ -415,7 +423,7 @@ static void run_op(CalWorld &w, const Op &op, const Plan &plan)
 	if (p.kind == 2 && op.I(1) == 1) f = p.kf[(size_t)(op.I(2) % (long)p.kf.size())];	// exactly at a knot
 	cplx v;
 	int e;
-	{ LibCall lc(c, &op); v = vnacal_get_parameter_value(w.vcp, h, f); lc.done(); e = lc.saved_errno; }
+	LIB_RETRY(c, &op, "vnacal_get_parameter_value", e, __real__ v == HUGE_VAL, v = vnacal_get_parameter_value(w.vcp, h, f));
 	bool failed = __real__ v == HUGE_VAL;
 	if (!live) { if (!failed) c.violate("model", "getpv:rc", "get_parameter_value returned a value for a deleted handle"); return; }
 	if (p.kind == 0 || p.kind == 1) {
@@ -474,9 +482,8 @@ static void run_op(CalWorld &w, const Op &op, const Plan &plan)
 	bool valid = type >= VNACAL_T8 && type <= VNACAL_E12 && type != _VNACAL_E12_UE14 && P >= 1 && F >= 0;
 	vnacal_new_t *vnp;
 	{
-	    LibCall lc(c, &op);
-	    vnp = vnacal_new_alloc(w.vcp, (vnacal_type_t)type, P, P, F);
-	    if (usage_failure(lc, vnp == nullptr, "vnacal_new_alloc", true)) { if (!c.violated && valid && F >= 1) c.violate("model", "new:rc", "vnacal_new_alloc refused valid arguments"); return; }
+	    LIB_RETRY(c, &op, "vnacal_new_alloc", u_err, vnp == nullptr, vnp = vnacal_new_alloc(w.vcp, (vnacal_type_t)type, P, P, F); CAPTURE_CB);
+	    if (usage_failure(vnp == nullptr, "vnacal_new_alloc", true)) { if (!c.violated && valid && F >= 1) c.violate("model", "new:rc", "vnacal_new_alloc refused valid arguments"); return; }
 	}
 	if (!valid) { c.violate("model", "new:rc", strf("vnacal_new_alloc accepted type %d, %dx%d, %d frequencies", type, P, P, F)); { LibCall lc(c); vnacal_new_free(vnp); lc.done(); } return; }
 	s = Session();
@@ -508,7 +515,7 @@ static void run_op(CalWorld &w, const Op &op, const Plan &plan)
 	    if (p.kf.front() > s.spec.fv.front() * 1.05 || p.kf.back() < s.spec.fv.back() * 0.95) clearly_missed = true;
 	}
 	int rc, e;
-	{ LibCall lc(c, &op); rc = vnacal_new_set_frequency_vector(s.vnp, s.spec.fv.data()); lc.done(); e = lc.saved_errno; }
+	LIB_RETRY(c, &op, "vnacal_new_set_frequency_vector", e, rc != 0, rc = vnacal_new_set_frequency_vector(s.vnp, s.spec.fv.data()));
 	if (rc == 0) { if (clearly_missed) { c.violate("model", "setfv:range", "frequency vector accepted although a vector standard already added misses the band by more than 5%"); return; } s.fv_set = true; }
 	else {
 	    if (covered && !s.tainted) { c.violate("model", "setfv:rc", strf("vnacal_new_set_frequency_vector refused a valid vector (errno %s)", errno_name(e))); return; }
@@ -593,12 +600,13 @@ static void run_op(CalWorld &w, const Op &op, const Plan &plan)
 		for (int f = 0; f < s2.F; ++f) { Mat M = s2.world.measure(std_truth(s2, s3, pl, s2.fv[f]), s2.fv[f]); for (int i = 0; i < P; ++i) for (int j = 0; j < P; ++j) m.at(i, j, f) = toc(M(i, j)); }
 		int rc;
 		{
-		    LibCall lc(c, &op);
-		    if (st.kind == 0) rc = vnacal_new_add_single_reflect_m(s.vnp, m.ptrs.data(), P, P, handles[0], p1);
-		    else if (st.kind == 1) rc = vnacal_new_add_double_reflect_m(s.vnp, m.ptrs.data(), P, P, handles[0], handles[1], p1, p2);
-		    else if (st.kind == 2) rc = vnacal_new_add_through_m(s.vnp, m.ptrs.data(), P, P, p1, p2);
-		    else rc = vnacal_new_add_line_m(s.vnp, m.ptrs.data(), P, P, handles.data(), p1, p2);
-		    if (usage_failure(lc, rc != 0, "vnacal_new_add_*", true)) return;
+		    LIB_RETRY(c, &op, "vnacal_new_add_*", u_err, rc != 0,
+			if (st.kind == 0) rc = vnacal_new_add_single_reflect_m(s.vnp, m.ptrs.data(), P, P, handles[0], p1);
+			else if (st.kind == 1) rc = vnacal_new_add_double_reflect_m(s.vnp, m.ptrs.data(), P, P, handles[0], handles[1], p1, p2);
+			else if (st.kind == 2) rc = vnacal_new_add_through_m(s.vnp, m.ptrs.data(), P, P, p1, p2);
+			else rc = vnacal_new_add_line_m(s.vnp, m.ptrs.data(), P, P, handles.data(), p1, p2);
+			CAPTURE_CB);
+		    if (usage_failure(rc != 0, "vnacal_new_add_*", true)) return;
 		}
 		c.violate("model", "add:ports", strf("standard accepted with invalid port numbers %d,%d on a %d-port calibration", p1, p2, P));
 	    }
@@ -634,16 +642,13 @@ static void run_op(CalWorld &w, const Op &op, const Plan &plan)
 	if (!s.active) return;
 	std::vector<ParamSpec> pl; for (auto &lp : w.params) pl.push_back(lp.spec);
 	int cls = s.fv_set ? classify(s.spec, pl) : 0;
-	int rc, e; bool fired; std::string msg; int cat = -1; size_t ncb;
-	{
-	    LibCall lc(c, &op);
+	int rc, e = 0; bool fired = false; std::string msg; int cat = -1; size_t ncb = 0;
+	// (a solve that fails because of an injected allocation failure is re-issued without it)
+	LIB_RETRY(c, &op, "vnacal_new_solve", e, rc != 0,
 	    rc = vnacal_new_solve(s.vnp);
-	    fired = g_sim.fired_vna > 0;
 	    ncb = g_sim.callbacks.size();
-	    if (ncb) { msg = g_sim.callbacks.back().msg; cat = g_sim.callbacks.back().category; }
-	    lc.done();
-	    e = lc.saved_errno;
-	}
+	    msg.clear(); cat = -1;
+	    if (ncb) { msg = g_sim.callbacks.back().msg; cat = g_sim.callbacks.back().category; });
 	c.log(" solve class=%d -> %d errno=%s %s", cls, rc, rc ? errno_name(e) : "-", msg.c_str());
 	if (c.violated) return;
 	c.count(strf("solve.class%d.%s", cls, rc == 0 ? "ok" : "fail"));
@@ -677,11 +682,8 @@ static void run_op(CalWorld &w, const Op &op, const Plan &plan)
 	std::string name = CAL_NAMES[op.I(1) % NNAMES];
 	int ci;
 	{
-	    LibCall lc(c, &op);
-	    ci = vnacal_add_calibration(w.vcp, name.c_str(), s.vnp);
-	    bool fired = g_sim.fired_vna > 0;
-	    if (ci < 0 && fired) { lc.done(); c.count("probe.addcal_failed_by_fault"); return; }
-	    if (usage_failure(lc, ci < 0, "vnacal_add_calibration", true)) { if (!c.violated && s.solved) c.violate("model", "addcal:rc", "vnacal_add_calibration refused a solved calibration"); return; }
+	    LIB_RETRY(c, &op, "vnacal_add_calibration", u_err, ci < 0, ci = vnacal_add_calibration(w.vcp, name.c_str(), s.vnp); CAPTURE_CB);
+	    if (usage_failure(ci < 0, "vnacal_add_calibration", true)) { if (!c.violated && s.solved) c.violate("model", "addcal:rc", "vnacal_add_calibration refused a solved calibration"); return; }
 	}
 	if (!s.solved) { c.violate("model", "addcal:rc", "vnacal_add_calibration accepted a vnacal_new_t without a solved calibration"); return; }
 	std::vector<ParamSpec> pl; for (auto &lp : w.params) pl.push_back(lp.spec);
@@ -767,7 +769,7 @@ static void run_op(CalWorld &w, const Op &op, const Plan &plan)
 	int ci = it == w.table.end() ? (int)op.I(1) : it->second.ci;
 	if (it == w.table.end()) for (auto &kv : w.table) if (kv.second.ci == ci) return;	// would hit another live one
 	int rc, e; size_t ncb;
-	{ LibCall lc(c, &op); rc = vnacal_delete_calibration(w.vcp, ci); ncb = g_sim.callbacks.size(); lc.done(); e = lc.saved_errno; }
+	LIB_RETRY(c, &op, "vnacal_delete_calibration", e, rc != 0, rc = vnacal_delete_calibration(w.vcp, ci); ncb = g_sim.callbacks.size());
 	if (ncb) { c.violate("model", "delcal:callback", "vnacal_delete_calibration (a silent function) invoked the error callback"); return; }
 	if (it != w.table.end()) {
 	    if (rc != 0) { c.violate("model", "delcal:rc", strf("delete_calibration(%d) failed for live calibration \"%s\"", ci, name.c_str())); return; }
@@ -800,7 +802,7 @@ static void run_op(CalWorld &w, const Op &op, const Plan &plan)
 	std::string key = op.S(0).empty() ? "k" : op.S(0), val = op.S(1);
 	if (k == "pset") {
 	    int rc; size_t ncb;
-	    { LibCall lc(c, &op); rc = vnacal_property_set(w.vcp, ci, "%s=%s", key.c_str(), val.c_str()); ncb = g_sim.callbacks.size(); lc.done(); }
+	    LIB_RETRY(c, &op, "vnacal_property_set", u_err, rc != 0, rc = vnacal_property_set(w.vcp, ci, "%s=%s", key.c_str(), val.c_str()); ncb = g_sim.callbacks.size());
 	    if (ncb) { c.violate("model", "pset:callback", "vnacal_property_set (a silent function) invoked the error callback"); return; }
 	    if (model) { if (rc != 0) { c.violate("model", "pset:rc", "vnacal_property_set failed on a live root"); return; } DPath p; DElem e; e.key = key; p.el = {e}; DResult r = dmodel_descend(*model, p, true); r.node->clear(); r.node->k = 1; r.node->s = val; }
 	    else if (rc == 0) { c.violate("model", "pset:rc", strf("vnacal_property_set accepted calibration index %d which holds no calibration", ci)); return; }
@@ -845,7 +847,7 @@ static void run_op(CalWorld &w, const Op &op, const Plan &plan)
 	    if (!valid) return;
 	    std::string full = desc + (ds.tail == 0 ? "=" + ds.value : "#");
 	    int rc;
-	    { LibCall lc(c, &op); rc = vnacal_property_set(w.vcp, ci, "%s", full.c_str()); lc.done(); }
+	    LIB_RETRY(c, &op, "vnacal_property_set", u_err, rc != 0, rc = vnacal_property_set(w.vcp, ci, "%s", full.c_str()));
 	    if (rc != 0) { c.violate("model", "vp_set:rc", strf("vnacal_property_set(%d, %s) failed", ci, Json(full).str().c_str())); return; }
 	    DResult r = dmodel_descend(m, ds.path, true);
 	    r.node->clear();
@@ -854,7 +856,7 @@ static void run_op(CalWorld &w, const Op &op, const Plan &plan)
 	    DNode copy = m;
 	    DResult r = dmodel_descend(copy, ds.path, false);
 	    int rc, e;
-	    { LibCall lc(c, &op); rc = vnacal_property_delete(w.vcp, ci, "%s", desc.c_str()); lc.done(); e = lc.saved_errno; }
+	    LIB_RETRY(c, &op, "vnacal_property_delete", e, rc != 0, rc = vnacal_property_delete(w.vcp, ci, "%s", desc.c_str()));
 	    if (r.err) {
 		if (rc == 0) { c.violate("model", "vp_del:rc", strf("vnacal_property_delete(%d, %s) succeeded, model expects %s", ci, Json(desc).str().c_str(), errno_name(r.err))); return; }
 		if (e != r.err && e != r.err_alt) { c.violate("model", "vp_del:errno", strf("vnacal_property_delete: errno %s, expected %s", errno_name(e), errno_name(r.err))); return; }
@@ -885,16 +887,14 @@ static void run_op(CalWorld &w, const Op &op, const Plan &plan)
 	    sc.probe = r.s;
 	    sf.cals.push_back(sc);
 	}
-	int rc, e; bool fired; std::string msg;
-	{
-	    LibCall lc(c, &op);
+	int rc, e = 0; bool fired = false; std::string msg;
+	// a save that fails because of an injected fault is repeated once the fault is gone; if it
+	// reports success although a fault fired, the file must be whole all the same
+	LIB_RETRY(c, &op, "vnacal_save", e, rc != 0,
 	    rc = vnacal_save(w.vcp, name.c_str());
-	    fired = g_sim.fired_vna || g_sim.fired_yaml || g_sim.fired_write_err || g_sim.fired_close_err || g_sim.fired_open;
-	    if (!g_sim.callbacks.empty()) msg = g_sim.callbacks.back().msg;
-	    lc.done();
-	    e = lc.saved_errno;
-	}
-	c.log(" vnacal_save(%s) -> %d errno=%s fired=%d size=%zu", name.c_str(), rc, rc ? errno_name(e) : "-", (int)fired, simfs()[name].size());
+	    msg.clear();
+	    if (!g_sim.callbacks.empty()) msg = g_sim.callbacks.back().msg);
+	c.log(" vnacal_save(%s) -> %d errno=%s size=%zu", name.c_str(), rc, rc ? errno_name(e) : "-", simfs()[name].size());
 	if (c.violated) return;
 	w.files.erase(name);
 	if (rc != 0) { if (!fired) c.violate("model", "vsave:rc", strf("vnacal_save failed without a fault: errno %s %s", errno_name(e), msg.c_str())); else c.count("probe.vsave_failed_by_fault"); check_table(w, op); return; }
@@ -929,16 +929,15 @@ static void run_op(CalWorld &w, const Op &op, const Plan &plan)
 	w.global_props.clear();
 	w.fprec = 7; w.dprec = 6;
 	c.count("fault.restart.fired");
-	vnacal_t *vcp; int e; bool fired; std::string msg;
-	{
-	    LibCall lc(c, &op);
+	vnacal_t *vcp; int e = 0; bool fired = false; std::string msg;
+	// storage faults (a stream that errors or ends early) change what the library reads: those
+	// loads are not repeated; a load failing for lack of memory is
+	LIB_RETRY(c, &op, "vnacal_load", e, vcp == nullptr && !(g_sim.fired_read_eio || g_sim.fired_read_eof || g_sim.fired_open),
 	    vcp = vnacal_load(name.c_str(), w.cb ? sim_error_fn : nullptr, nullptr);
-	    fired = g_sim.fired_vna || g_sim.fired_yaml || g_sim.fired_read_eio || g_sim.fired_read_eof || g_sim.fired_open;
-	    if (!g_sim.callbacks.empty()) msg = g_sim.callbacks.back().msg;
-	    lc.done();
-	    e = lc.saved_errno;
-	}
-	c.log(" vnacal_load(%s) -> %s errno=%s fired=%d", name.c_str(), vcp ? "ok" : "NULL", vcp ? "-" : errno_name(e), (int)fired);
+	    fired = g_sim.fired_read_eio || g_sim.fired_read_eof || g_sim.fired_open;
+	    msg.clear();
+	    if (!g_sim.callbacks.empty()) msg = g_sim.callbacks.back().msg);
+	c.log(" vnacal_load(%s) -> %s errno=%s", name.c_str(), vcp ? "ok" : "NULL", vcp ? "-" : errno_name(e));
 	auto fit = w.files.find(name);
 	bool good = fit != w.files.end() && fit->second.good && !fired;
 	if (!vcp) {
